@@ -375,9 +375,41 @@ fn matching_end(toks: &[Tok], i: usize) -> Option<usize> {
 fn generic_candidates(p: &Plan) -> Vec<Plan> {
     let mut out: Vec<Plan> = vec![];
     // --- structure first: big steps ---
+    // every candidate is a clone of the plan: for plans with thousands of tokens / calls only
+    // a sample of the positions is tried per round (the rounds repeat while progress is made)
+    let tstep = (p.toks.len() / 100).max(1);
+    let ostep = (p.ops.len() / 100).max(1);
     if !p.toks.is_empty() {
         let sp = crate::gen::spans(&p.toks);
-        for i in 0..p.toks.len() {
+        if p.toks.len() > 400 {
+            // big steps for big plans: the first / second half of the tokens, the outer quarters
+            let n = p.toks.len();
+            let free_form = matches!(p.scenario.as_str(), "chunk" | "soup" | "fault" | "nest");
+            for (a, b) in [(0, n / 2), (n / 2, n), (0, n / 4), (3 * n / 4, n), (n / 4, 3 * n / 4)] {
+                // (only where the scenario's model does not need a well-nested document)
+                if b > a && free_form {
+                    let mut q = p.clone();
+                    q.toks.drain(a..b);
+                    remove_range(&mut q, sp[a].0, sp[b - 1].1);
+                    out.push(q);
+                }
+            }
+            // a run of start tags with their end tags (deep wrappers)
+            let lead = p.toks.iter().take_while(|t| t.k == TK::Start).count();
+            let trail = p.toks.iter().rev().take_while(|t| t.k == TK::End).count();
+            let i = lead.min(trail);
+            for k in [i, i / 2, i / 4] {
+                if k >= 2 {
+                    let mut q = p.clone();
+                    q.toks.drain(n - k..n);
+                    q.toks.drain(0..k);
+                    remove_range(&mut q, sp[n - k].0, sp[n - 1].1);
+                    remove_range(&mut q, sp[0].0, sp[k - 1].1);
+                    out.push(q);
+                }
+            }
+        }
+        for i in (0..p.toks.len()).step_by(tstep) {
             // a start tag goes together with its end tag
             if p.toks[i].k == TK::Start {
                 if let Some(j) = matching_end(&p.toks, i) {
@@ -405,7 +437,7 @@ fn generic_candidates(p: &Plan) -> Vec<Plan> {
             out.push(q);
         }
         // simplify single tokens: drop attributes / trailing blanks
-        for i in 0..p.toks.len() {
+        for i in (0..p.toks.len()).step_by(tstep) {
             let t = &p.toks[i];
             let simple: Option<Vec<u8>> = match t.k {
                 TK::Start => Some(format!("<{}>", t.name).into_bytes()),
@@ -470,7 +502,7 @@ fn generic_candidates(p: &Plan) -> Vec<Plan> {
     }
     // --- caller script ---
     let has_raw = p.ops.iter().any(|o| matches!(o, Op::Raw { .. }));
-    for i in (0..p.ops.len()).rev() {
+    for i in (0..p.ops.len()).rev().step_by(ostep) {
         if has_raw && i == 0 {
             continue; // a raw-read script starts with a read_event (BOM sniff at the document start)
         }
@@ -610,11 +642,15 @@ pub fn shrink(scen: &dyn Scenario, plan: &Plan, v: &Violation) -> (Plan, Violati
     let mut best_v = v.clone();
     let mut tried = 0usize;
     let mut scratch = Stats::default();
+    // candidate executions cost as much as the plan is big: the budget shrinks with the plan
+    // size (a function of the plan only, so minimisation stays repeatable)
+    let size = plan.toks.len() + plan.ops.len() + plan.doc.len() / 16 + 1;
+    let budget = (3_000_000 / size).clamp(200, SHRINK_BUDGET);
     'outer: loop {
         let mut cands = generic_candidates(&best);
         cands.extend(scen.shrink(&best));
         for c in cands {
-            if tried >= SHRINK_BUDGET {
+            if tried >= budget {
                 break 'outer;
             }
             tried += 1;
